@@ -4,146 +4,238 @@ Invariants of the transition system M6 instantiated with the thread programs reg
 from /repo/x/watcher/changes.go (Generated/SyncWatcher.lean), for ANY number of Fetch and
 FileChanged threads spawned at any time.
 -/
-import GopModel.Lemmas.TS
-import GopModel.Generated.SyncWatcher
+import GopModel.Lemmas.WatcherInv
+import GopModel.Lemmas.WatcherRet
 namespace GopModel.C40
 open GopModel.TS GopModel.Generated.SyncWatcher
 
-/-- thread is inside the critical section (between Lock and Unlock / Wait) -/
-def holds (t : Thread) : Bool :=
-  (t.fn == 0 && (t.pc == 1 || t.pc == 2 || t.pc == 4 || t.pc == 5)) ||
-  (t.fn == 1 && (t.pc == 2 || t.pc == 3 || t.pc == 4))
+/-! ### reachable states -/
 
-def Valid (t : Thread) : Prop :=
-  ((t.fn = 0 ∧ t.pc < 9) ∨ (t.fn = 1 ∧ t.pc < 8)) ∧ t.st ≠ .parked
+theorem reach_inv {root : List UInt8} {s : State} (h : Reachable sys root s) : Basic s ∧ Inv s ∧ RInv s := by
+  refine Reachable.induct (fun s => Basic s ∧ Inv s ∧ RInv s) ?_ ?_ h
+  · refine ⟨⟨rfl, ?_, ?_, ?_⟩, ⟨?_, ?_, ?_, ?_, ?_, ?_, ?_⟩, ⟨?_, ?_, ?_⟩⟩ <;> simp [Sys.init, sys, pend, WfTrace, RetOk]
+  · intro s s' l ⟨B, I, R⟩ hn
+    exact ⟨basic_step B hn, inv_step B I hn, rinv_step B I R hn⟩
 
-/-- which instruction a valid thread is at -/
-theorem instr_cases {t : Thread} {ins : Instr} (hv : Valid t) (h : instrAt sys t = some ins) :
-    (t.fn = 0 ∧ t.pc = 0 ∧ ins = .lock 1) ∨
-    (t.fn = 0 ∧ t.pc = 1 ∧ ins = .brEmpty 2 4) ∨
-    (t.fn = 0 ∧ t.pc = 2 ∧ ins = .waitEnq 3) ∨
-    (t.fn = 0 ∧ t.pc = 3 ∧ ins = .waitRelock 1) ∨
-    (t.fn = 0 ∧ t.pc = 4 ∧ ins = .setPick .a 5) ∨
-    (t.fn = 0 ∧ t.pc = 5 ∧ ins = .unlock 6) ∨
-    (t.fn = 0 ∧ t.pc = 6 ∧ ins = .brZero .b 8 7) ∨
-    (t.fn = 0 ∧ t.pc = 7 ∧ ins = .pure .addRoot .a .a 8) ∨
-    (t.fn = 0 ∧ t.pc = 8 ∧ ins = .ret (.reg .a)) ∨
-    (t.fn = 1 ∧ t.pc = 0 ∧ ins = .pure .pathDir .b .a 1) ∨
-    (t.fn = 1 ∧ t.pc = 1 ∧ ins = .lock 2) ∨
-    (t.fn = 1 ∧ t.pc = 2 ∧ ins = .setLen .c 3) ∨
-    (t.fn = 1 ∧ t.pc = 3 ∧ ins = .setInsert .b 4) ∨
-    (t.fn = 1 ∧ t.pc = 4 ∧ ins = .unlock 5) ∨
-    (t.fn = 1 ∧ t.pc = 5 ∧ ins = .brZero .c 6 7) ∨
-    (t.fn = 1 ∧ t.pc = 6 ∧ ins = .broadcast 7) ∨
-    (t.fn = 1 ∧ t.pc = 7 ∧ ins = .ret .unit) := by
-  obtain ⟨hv, _⟩ := hv
-  rcases hv with ⟨hfn, hpc⟩ | ⟨hfn, hpc⟩
-  · have : t.pc = 0 ∨ t.pc = 1 ∨ t.pc = 2 ∨ t.pc = 3 ∨ t.pc = 4 ∨ t.pc = 5 ∨ t.pc = 6 ∨ t.pc = 7 ∨ t.pc = 8 := by omega
-    rcases this with e|e|e|e|e|e|e|e|e <;>
-      simp [instrAt, sys, hfn, e, fetchFn, fetchCode] at h <;> simp [hfn, e, h]
-  · have : t.pc = 0 ∨ t.pc = 1 ∨ t.pc = 2 ∨ t.pc = 3 ∨ t.pc = 4 ∨ t.pc = 5 ∨ t.pc = 6 ∨ t.pc = 7 := by omega
-    rcases this with e|e|e|e|e|e|e|e <;>
-      simp [instrAt, sys, hfn, e, fileChangedFn, fileChangedCode] at h <;> simp [hfn, e, h]
+/-! ## Property theorems (C40)
 
-theorem spawn_cases {fn : Nat} {f : FnDef} (hsp : sys.spawnable.contains fn = true)
-    (hf : sys.fns[fn]? = some f) : (fn = 0 ∧ f = fetchFn) ∨ (fn = 1 ∧ f = fileChangedFn) := by
-  simp [sys] at hsp hf
-  rcases hsp with rfl | rfl <;> simp at hf <;> simp [hf]
+`s.trace` lists the ghost events newest first: in `post ++ e :: pre`, `pre` happened before `e`
+and `post` after it.  `Ev.insert j d` = FileChanged thread `j` executed `p.changed[dir] = none{}`
+(the report of `d`), `Ev.delete j d` = Fetch thread `j` took `d` out of the set, `Ev.ret j 0 o` =
+Fetch thread `j` returned `o`. -/
 
-structure Basic (s : State) : Prop where
-  noPanic : s.panic = false
-  valid : ∀ (i : Nat) t, s.threads[i]? = some t → Valid t
-  hold1 : ∀ (i : Nat) t, s.threads[i]? = some t → holds t = true → s.holder = some i
-  hold2 : ∀ (i : Nat), s.holder = some i → ∃ t, s.threads[i]? = some t ∧ holds t = true
+/-- Fetch never returns a directory that was not reported: every removal of `d` from the set is
+preceded by a report of `d`. -/
+theorem C40_fetched_was_reported {root : List UInt8} {s : State} (hr : Reachable sys root s)
+    {post pre : List Ev} {j : Nat} {d : Val} (ht : s.trace = post ++ Ev.delete j d :: pre) :
+    ∃ j', Ev.insert j' d ∈ pre := by
+  have hw := (reach_inv hr).2.1.wf
+  rw [ht] at hw
+  have := wf_append hw
+  simp only [WfTrace] at this
+  exact pend_true_insert this.1
 
-theorem basic_step {s s' : State} {l : Label} (I : Basic s) (h : next sys s l = some s') : Basic s' := by
-  cases l with
-  | thread j k p v =>
-    obtain ⟨hp, t, ht, hst, ins, hins, hex⟩ := next_thread h
-    have hv := I.valid j t ht
-    rcases instr_cases hv hins with ⟨hfn, hpc, rfl⟩ | ⟨hfn, hpc, rfl⟩ | ⟨hfn, hpc, rfl⟩ | ⟨hfn, hpc, rfl⟩ | ⟨hfn, hpc, rfl⟩ | ⟨hfn, hpc, rfl⟩ | ⟨hfn, hpc, rfl⟩ | ⟨hfn, hpc, rfl⟩ | ⟨hfn, hpc, rfl⟩ | ⟨hfn, hpc, rfl⟩ | ⟨hfn, hpc, rfl⟩ | ⟨hfn, hpc, rfl⟩ | ⟨hfn, hpc, rfl⟩ | ⟨hfn, hpc, rfl⟩ | ⟨hfn, hpc, rfl⟩ | ⟨hfn, hpc, rfl⟩ | ⟨hfn, hpc, rfl⟩
-    all_goals (
-      obtain ⟨_, hval, h1, h2⟩ := I
-      have hjl := getElem?_lt ht
-      simp only [exec] at hex
-      repeat' (split at hex)
-      all_goals first
-        | (cases hex; done)
-        | (cases hex
-           refine ⟨?_, ?_, ?_, ?_⟩ <;> simp only [State.setThread, State.emit, State.doPanic, List.getElem?_set] <;> grind [holds, goto, Valid, Thread.put]))
-  | spawn fn a b =>
-    obtain ⟨_, hval, h1, h2⟩ := I
-    obtain ⟨hp, hsp, f, hf, rfl⟩ := next_spawn h
-    have hfn := spawn_cases hsp hf
-    refine ⟨?_, ?_, ?_, ?_⟩ <;> simp only [State.emit, List.getElem?_append, FnDef.mkThread] <;>
-      grind [holds, Valid, fetchFn, fileChangedFn, regInit]
-  | spurious j =>
-    obtain ⟨_, hval, h1, h2⟩ := I
-    obtain ⟨hp, _, rfl⟩ := next_spurious h
-    exact ⟨hp, hval, h1, h2⟩
+/-- ... and what a Fetch call returns is the directory it removed (with the root prefix when
+`fullPath`). -/
+theorem C40_returned_is_fetched {root : List UInt8} {s : State} (hr : Reachable sys root s)
+    {post pre : List Ev} {j : Nat} {o : Out} (ht : s.trace = post ++ Ev.ret j 0 o :: pre) :
+    ∃ d, lastDel j pre = some d ∧ (o = .val d ∨ o = .val (applyPure s.root .addRoot d)) := by
+  have hw := (reach_inv hr).2.2.retOk
+  rw [ht] at hw
+  have := retOk_append hw
+  simp only [RetOk] at this
+  exact this.1 trivial
 
-/-! ### set / trace / wake-up invariants -/
+/-- A directory is returned at most once per report: between two removals of the same `d` there
+is a report of `d`. -/
+theorem C40_at_most_once_per_report {root : List UInt8} {s : State} (hr : Reachable sys root s)
+    {post mid pre : List Ev} {j1 j2 : Nat} {d : Val}
+    (ht : s.trace = post ++ Ev.delete j2 d :: (mid ++ Ev.delete j1 d :: pre)) :
+    ∃ j', Ev.insert j' d ∈ mid := by
+  have hw := (reach_inv hr).2.1.wf
+  rw [ht] at hw
+  have := wf_append hw
+  simp only [WfTrace] at this
+  exact pend_mid_insert this.1
 
-/-- does the `d`-projection of the trace (newest first) end with an insert of `d`? -/
-def pend (d : Val) : List Ev → Bool
-  | [] => false
-  | .insert _ d' :: t => if d' = d then true else pend d t
-  | .delete _ d' :: t => if d' = d then false else pend d t
-  | _ :: t => pend d t
+/-- Nothing is lost: every reported directory is still pending in the set or has been removed by a
+Fetch after the report. -/
+theorem C40_reported_pending_or_fetched {root : List UInt8} {s : State} (hr : Reachable sys root s)
+    {post pre : List Ev} {j : Nat} {d : Val} (ht : s.trace = post ++ Ev.insert j d :: pre) :
+    d ∈ s.set ∨ ∃ j', Ev.delete j' d ∈ post := by
+  have hst := (reach_inv hr).2.1.setTrace d
+  rcases pend_or_deleted (d := d) (j := j) post pre with h | h
+  · left; rw [hst, ht]; exact h
+  · right; exact h
 
-/-- every delete of `d` removes a `d` that is pending at that moment -/
-def WfTrace : List Ev → Prop
-  | [] => True
-  | .delete _ d :: t => pend d t = true ∧ WfTrace t
-  | _ :: t => WfTrace t
+/-- the set holds no duplicates, so `len(p.changed)` is the number of pending directories -/
+theorem C40_set_nodup {root : List UInt8} {s : State} (hr : Reachable sys root s) : s.set.Nodup :=
+  (reach_inv hr).2.1.nodup
 
-structure Inv (s : State) : Prop where
-  emptyAtWait : ∀ (i : Nat) t, s.threads[i]? = some t → t.fn = 0 → t.pc = 2 → s.set = []
-  nonEmptyAtPick : ∀ (i : Nat) t, s.threads[i]? = some t → t.fn = 0 → t.pc = 4 → s.set ≠ []
-  lenReg : ∀ (i : Nat) t, s.threads[i]? = some t → t.fn = 1 → t.pc = 3 → t.c = .nat s.set.length
-  wake : s.set ≠ [] → s.notify ≠ [] →
-    ∃ (i : Nat) (t : Thread), s.threads[i]? = some t ∧ t.fn = 1 ∧ t.c = .nat 0 ∧ (t.pc = 4 ∨ t.pc = 5 ∨ t.pc = 6)
-  setTrace : ∀ d, d ∈ s.set ↔ pend d s.trace = true
-  wf : WfTrace s.trace
-  nodup : s.set.Nodup
+/-- No runtime failure (unlock of an unlocked mutex, Wait without the lock). -/
+theorem C40_no_panic {root : List UInt8} {s : State} (hr : Reachable sys root s) : s.panic = false :=
+  (reach_inv hr).1.noPanic
 
-set_option hygiene false in
-macro "inv_tac" : tactic => `(tactic| (
-  simp only [exec] at hex
-  repeat' (split at hex)
+/-- Mutual exclusion: two threads are never both between Lock and Unlock/Wait. -/
+theorem C40_mutex {root : List UInt8} {s : State} (hr : Reachable sys root s)
+    {i j : Nat} {ti tj : Thread} (hi : s.threads[i]? = some ti) (hj : s.threads[j]? = some tj)
+    (h1 : holds ti = true) (h2 : holds tj = true) : i = j := by
+  have B := (reach_inv hr).1
+  have a := B.hold1 i ti hi h1
+  have b := B.hold1 j tj hj h2
+  rw [a] at b; cases b; rfl
+
+/-- a FileChanged thread that found the set empty (`n == 0`), has inserted, and has not broadcast yet -/
+def BroadcastPending (s : State) : Prop :=
+  ∃ (i : Nat) (t : Thread), s.threads[i]? = some t ∧ t.fn = 1 ∧ t.c = .nat 0 ∧
+    (t.pc = 4 ∨ t.pc = 5 ∨ t.pc = 6) ∧ t.st = .run
+
+/-- No lost wake-up: if the set is non-empty and a consumer sits in the wait queue un-notified,
+then a Broadcast is pending.  (A consumer at pc 3 that is no longer on the notify list has been
+signalled.) -/
+theorem C40_no_lost_wakeup {root : List UInt8} {s : State} (hr : Reachable sys root s)
+    (hne : s.set ≠ []) {j : Nat} {t : Thread} (_ht : s.threads[j]? = some t)
+    (_hfn : t.fn = 0) (_hpc : t.pc = 3) (hq : j ∈ s.notify) : BroadcastPending s := by
+  apply (reach_inv hr).2.1.wake hne
+  intro h0; rw [h0] at hq; cases hq
+
+/-! ### liveness as enabledness -/
+
+/-- some step of thread `i` is enabled -/
+def Enabled (s : State) (i : Nat) : Prop := ∃ k p v s', next sys s (.thread i k p v) = some s'
+
+/-- A running thread that is not at `Lock` or in the second half of `Wait` can always step:
+no other instruction of the two programs blocks. -/
+theorem nonblocking_enabled {s : State} (hp : s.panic = false) {i : Nat} {t : Thread}
+    (ht : s.threads[i]? = some t) (hv : Valid t) (hst : t.st = .run)
+    (hnb : ¬(t.fn = 0 ∧ t.pc = 0) ∧ ¬(t.fn = 0 ∧ t.pc = 3) ∧ ¬(t.fn = 1 ∧ t.pc = 1)) : Enabled s i := by
+  have hlt : t.pc < 9 := by rcases hv.1 with h | h <;> omega
+  have hins : ∃ ins, instrAt sys t = some ins := by
+    rcases hv.1 with ⟨hfn, hpc⟩ | ⟨hfn, hpc⟩
+    · exact ⟨fetchCode[t.pc]'(by simp [fetchCode]; omega), by simp [instrAt, sys, hfn, fetchFn]⟩
+    · exact ⟨fileChangedCode[t.pc]'(by simp [fileChangedCode]; omega), by simp [instrAt, sys, hfn, fileChangedFn]⟩
+  obtain ⟨ins, hins⟩ := hins
+  refine ⟨0, 0, .nat 0, ?_⟩
+  rcases instr_cases hv hins with ⟨hfn, hpc, rfl⟩ | ⟨hfn, hpc, rfl⟩ | ⟨hfn, hpc, rfl⟩ | ⟨hfn, hpc, rfl⟩ | ⟨hfn, hpc, rfl⟩ | ⟨hfn, hpc, rfl⟩ | ⟨hfn, hpc, rfl⟩ | ⟨hfn, hpc, rfl⟩ | ⟨hfn, hpc, rfl⟩ | ⟨hfn, hpc, rfl⟩ | ⟨hfn, hpc, rfl⟩ | ⟨hfn, hpc, rfl⟩ | ⟨hfn, hpc, rfl⟩ | ⟨hfn, hpc, rfl⟩ | ⟨hfn, hpc, rfl⟩ | ⟨hfn, hpc, rfl⟩ | ⟨hfn, hpc, rfl⟩
   all_goals first
-    | (cases hex; done)
-    | (cases hex
-       refine ⟨?_, ?_, ?_, ?_, ?_, ?_, ?_⟩ <;> simp only [State.setThread, State.emit, State.doPanic, List.getElem?_set] <;> grind [holds, goto, Valid, Thread.put, Thread.get, pend, WfTrace, List.length_eq_zero_iff])))
+    | (exfalso; simp [hfn, hpc] at hnb; done)
+    | (simp only [next, hp, ht, hst, hins, exec]
+       first
+         | (cases s.holder <;> simp; done)
+         | (cases s.set <;> simp; done)
+         | simp)
 
-set_option maxHeartbeats 4000000 in
-theorem inv_step {s s' : State} {l : Label} (B : Basic s) (I : Inv s) (h : next sys s l = some s') : Inv s' := by
-  cases l with
-  | thread j k p v =>
-    obtain ⟨hp, t, ht, hst, ins, hins, hex⟩ := next_thread h
-    have hv := B.valid j t ht
-    obtain ⟨_, hval, h1, h2⟩ := B
-    obtain ⟨i1, i2, i3, i4, i5, i6, i7⟩ := I
-    have hjl := getElem?_lt ht
-    rcases instr_cases hv hins with ⟨hfn, hpc, rfl⟩ | ⟨hfn, hpc, rfl⟩ | ⟨hfn, hpc, rfl⟩ | ⟨hfn, hpc, rfl⟩ | ⟨hfn, hpc, rfl⟩ | ⟨hfn, hpc, rfl⟩ | ⟨hfn, hpc, rfl⟩ | ⟨hfn, hpc, rfl⟩ | ⟨hfn, hpc, rfl⟩ | ⟨hfn, hpc, rfl⟩ | ⟨hfn, hpc, rfl⟩ | ⟨hfn, hpc, rfl⟩ | ⟨hfn, hpc, rfl⟩ | ⟨hfn, hpc, rfl⟩ | ⟨hfn, hpc, rfl⟩ | ⟨hfn, hpc, rfl⟩ | ⟨hfn, hpc, rfl⟩
-    · inv_tac -- case 0
-    · inv_tac -- case 1
-    · inv_tac -- case 2
-    · inv_tac -- case 3
-    · inv_tac -- case 4
-    · inv_tac -- case 5
-    · inv_tac -- case 6
-    · inv_tac -- case 7
-    · inv_tac -- case 8
-    · inv_tac -- case 9
-    · inv_tac -- case 10
-    · inv_tac -- case 11
-    · inv_tac -- case 12
-    · inv_tac -- case 13
-    · inv_tac -- case 14
-    · inv_tac -- case 15
-    · inv_tac -- case 16
-  | spawn fn a b => sorry
-  | spurious j => sorry
+/-- Liveness (as enabledness) of a waiting Fetch: whenever the set is non-empty and a Fetch thread
+`j` is inside `Wait`, a step that leads towards its wake-up is enabled — of `j` itself (it has
+been notified and the mutex is free), of the current mutex holder (which never blocks while
+holding), or of the FileChanged thread whose Broadcast is pending. -/
+theorem C40_waiting_fetch_progress {root : List UInt8} {s : State} (hr : Reachable sys root s)
+    (hne : s.set ≠ []) {j : Nat} {t : Thread} (ht : s.threads[j]? = some t)
+    (hfn : t.fn = 0) (hpc : t.pc = 3) (hst : t.st = .run) :
+    ∃ i, Enabled s i ∧ (i = j ∨ s.holder = some i ∨
+      ∃ ti, s.threads[i]? = some ti ∧ ti.fn = 1 ∧ ti.c = .nat 0 ∧ (ti.pc = 4 ∨ ti.pc = 5 ∨ ti.pc = 6)) := by
+  obtain ⟨B, I, _⟩ := reach_inv hr
+  by_cases hq : j ∈ s.notify
+  · obtain ⟨i, ti, hti, hf, hc, hpcs, hrun⟩ := C40_no_lost_wakeup hr hne ht hfn hpc hq
+    refine ⟨i, nonblocking_enabled B.noPanic hti (B.valid i ti hti) hrun ?_, Or.inr (Or.inr ⟨ti, hti, hf, hc, hpcs⟩)⟩
+    omega
+  · cases hh : s.holder with
+    | none =>
+      refine ⟨j, ⟨0, 0, .nat 0, ?_⟩, Or.inl rfl⟩
+      have hins : instrAt sys t = some (.waitRelock 1) := by
+        simp [instrAt, sys, hfn, hpc, fetchFn, fetchCode]
+      simp [next, B.noPanic, ht, hst, hins, exec, hq, hh]
+    | some i =>
+      obtain ⟨ti, hti, hho⟩ := B.hold2 i hh
+      have hv := B.valid i ti hti
+      have hrun : ti.st = .run := by
+        rcases hv.2 with h | ⟨_, h⟩
+        · exact h
+        · simp [holds] at hho; omega
+      refine ⟨i, nonblocking_enabled B.noPanic hti hv hrun ?_, Or.inr (Or.inl rfl)⟩
+      simp [holds] at hho; omega
+
+/-- Deadlock freedom: if some thread is still running and it is not a Fetch legitimately waiting
+for a change (inside `Wait`, un-notified, set empty), then some thread can step. -/
+theorem C40_progress {root : List UInt8} {s : State} (hr : Reachable sys root s)
+    {j : Nat} {t : Thread} (ht : s.threads[j]? = some t) (hst : t.st = .run)
+    (hw : ¬(t.fn = 0 ∧ t.pc = 3 ∧ j ∈ s.notify ∧ s.set = [])) : ∃ i, Enabled s i := by
+  obtain ⟨B, I, _⟩ := reach_inv hr
+  have hv := B.valid j t ht
+  have holderRuns : ∀ i, s.holder = some i → Enabled s i := by
+    intro i hh
+    obtain ⟨ti, hti, hho⟩ := B.hold2 i hh
+    have hvi := B.valid i ti hti
+    have hrun : ti.st = .run := by
+      rcases hvi.2 with h | ⟨_, h⟩
+      · exact h
+      · simp [holds] at hho; omega
+    refine nonblocking_enabled B.noPanic hti hvi hrun ?_
+    simp [holds] at hho; omega
+  by_cases hlock : (t.fn = 0 ∧ t.pc = 0) ∨ (t.fn = 1 ∧ t.pc = 1)
+  · cases hh : s.holder with
+    | some i => exact ⟨i, holderRuns i hh⟩
+    | none =>
+      refine ⟨j, 0, 0, .nat 0, ?_⟩
+      rcases hlock with ⟨hfn, hpc⟩ | ⟨hfn, hpc⟩
+      · have hins : instrAt sys t = some (.lock 1) := by simp [instrAt, sys, hfn, hpc, fetchFn, fetchCode]
+        simp [next, B.noPanic, ht, hst, hins, exec, hh]
+      · have hins : instrAt sys t = some (.lock 2) := by simp [instrAt, sys, hfn, hpc, fileChangedFn, fileChangedCode]
+        simp [next, B.noPanic, ht, hst, hins, exec, hh]
+  · by_cases hwait : t.fn = 0 ∧ t.pc = 3
+    · by_cases hne : s.set = []
+      · have hq : j ∉ s.notify := fun hq => hw ⟨hwait.1, hwait.2, hq, hne⟩
+        cases hh : s.holder with
+        | some i => exact ⟨i, holderRuns i hh⟩
+        | none =>
+          refine ⟨j, 0, 0, .nat 0, ?_⟩
+          have hins : instrAt sys t = some (.waitRelock 1) := by
+            simp [instrAt, sys, hwait.1, hwait.2, fetchFn, fetchCode]
+          simp [next, B.noPanic, ht, hst, hins, exec, hq, hh]
+      · obtain ⟨i, he, _⟩ := C40_waiting_fetch_progress hr hne ht hwait.1 hwait.2 hst
+        exact ⟨i, he⟩
+    · refine ⟨j, nonblocking_enabled B.noPanic ht hv hst ?_⟩
+      omega
+
+/-! ### non-vacuity: concrete reachable states meeting the hypotheses -/
+
+def dA : Val := .str [0x61]               -- directory "a"
+def nameAX : Val := .str [0x61, 0x2f, 0x78]   -- file "a/x"
+
+/-- run a list of labels from the initial state -/
+def runLabels (root : List UInt8) : List Label → Option State
+  | [] => some (sys.init root)
+  | l :: ls => match runLabels root ls with   -- labels newest first
+    | none => none
+    | some s => next sys s l
+
+theorem runLabels_reachable {root : List UInt8} : ∀ (ls : List Label) (s : State),
+    runLabels root ls = some s → Reachable sys root s
+  | [], s, h => by simp [runLabels] at h; subst h; exact .init
+  | l :: ls, s, h => by
+    simp only [runLabels] at h
+    split at h
+    · cases h
+    · rename_i s0 h0
+      exact .step l (runLabels_reachable ls s0 h0) h
+
+/-- schedule (oldest first): Fetch thread 0 finds the set empty and waits; FileChanged("a/x")
+thread 1 inserts "a" and is about to unlock: the waiter is un-notified, the set non-empty. -/
+def schedWaiting : List Label := [
+  .spawn 0 (.nat 0) (.nat 0), .thread 0 0 0 (.nat 0), .thread 0 0 0 (.nat 0), .thread 0 0 0 (.nat 0),
+  .spawn 1 nameAX (.nat 0), .thread 1 0 0 (.nat 0), .thread 1 0 0 (.nat 0), .thread 1 0 0 (.nat 0),
+  .thread 1 0 0 (.nat 0)]
+
+/-- ... continued: unlock, branch, Broadcast, then the Fetch re-locks, takes "a", unlocks, returns. -/
+def schedFetched : List Label :=
+  schedWaiting ++ [.thread 1 0 0 (.nat 0), .thread 1 0 0 (.nat 0), .thread 1 0 0 (.nat 0), .thread 1 0 0 (.nat 0),
+    .thread 0 0 0 (.nat 0), .thread 0 0 0 (.nat 0), .thread 0 0 0 (.nat 0), .thread 0 0 0 (.nat 0),
+    .thread 0 0 0 (.nat 0), .thread 0 0 0 (.nat 0)]
+
+example : (runLabels [] schedWaiting.reverse).map (fun s => (s.set, s.notify, s.threads.map (·.pc))) =
+    some ([dA], [0], [3, 4]) := by decide
+example : (runLabels [] schedFetched.reverse).map (fun s => (s.set, s.notify, s.trace)) =
+    some ([], [], [.ret 0 0 (.val dA), .delete 0 dA, .ret 1 1 .unit, .insert 1 dA,
+      .spawn 1 1 nameAX (.nat 0), .spawn 0 0 (.nat 0) (.nat 0)]) := by decide
 
 end GopModel.C40
